@@ -389,7 +389,7 @@ pub fn run(ck: &mut Check) {
         "sign_verify_events",
         n,
         move || {
-            (pdu::pdu(), any::<[[u8; 32]; 3]>(), 0u8..3, "[A-Za-z0-9_]{1,6}", any::<bool>(), any::<bool>(), post(), prop_oneof![3 => Just(0u8), 1 => 1u8..5], prop_oneof![2 => Just(0u8), 1 => 1u8..3]).prop_map(|(pdu, seeds, der_form, key_version, extra_signer, extra_key_known, post, prior, two_keys)| EventCase {
+            (pdu::pdu(), [crate::keys::seed32(), crate::keys::seed32(), crate::keys::seed32()], 0u8..3, "[A-Za-z0-9_]{1,6}", any::<bool>(), any::<bool>(), post(), prop_oneof![3 => Just(0u8), 1 => 1u8..5], prop_oneof![2 => Just(0u8), 1 => 1u8..3]).prop_map(|(pdu, seeds, der_form, key_version, extra_signer, extra_key_known, post, prior, two_keys)| EventCase {
                 pdu,
                 seeds,
                 der_form,
@@ -419,7 +419,7 @@ pub fn run(ck: &mut Check) {
                 2 => any::<u16>().prop_map(Post::WrongKeyForRequired),
                 2 => (0u8..2).prop_map(Post::Redact),
             ];
-            (pdu::pdu(), any::<[[u8; 32]; 3]>(), 0u8..3, "[A-Za-z0-9_]{1,6}", attack, 0u8..3, (1u8..=11, 0usize..3, 1usize..3, 0u8..3, any::<bool>())).prop_map(|(mut pdu, seeds, der_form, key_version, post, two_keys, (version, sender_srv, other_off, shape, flag))| {
+            (pdu::pdu(), [crate::keys::seed32(), crate::keys::seed32(), crate::keys::seed32()], 0u8..3, "[A-Za-z0-9_]{1,6}", attack, 0u8..3, (1u8..=11, 0usize..3, 1usize..3, 0u8..3, any::<bool>())).prop_map(|(mut pdu, seeds, der_form, key_version, post, two_keys, (version, sender_srv, other_off, shape, flag))| {
                 let e = &mut pdu.event;
                 let sender = pdu::user(sender_srv, 1);
                 let other = pdu::user(sender_srv + other_off, 2);
